@@ -169,6 +169,30 @@ def walker_selection(F, R, bodies, tag="C15-b"):
         unchk = any(x.kind == "cond" and not x.pol and (x.node.get("fn") or "").endswith("is_checkable") for x in g)
         R.ob(tag, "a code module is replaced by its types dependency only when that dependency resolved (else only unchecked JS is skipped)", sub or unchk,
              "a module is skipped in a types-only walk although its types dependency did not resolve: the failed types resolution and everything behind the module disappear from the walk", where(c))
+        # whether a module is skipped must not depend on whether its types
+        # dependency happened to be seen already
+        dep_seen = [x for x in g if x.kind == "cond" and any(y.get("k") == "MethodCall" and y["name"] in ("insert", "contains") and (field_of(y["recv"]) == "seen" or tyc(F, y["recv"], "HashSet<&")) for y in walk(x.node))]
+        R.ob(tag, "the types-only skip does not depend on the seen-set", not dep_seen,
+             "the `continue` that replaces a code module by its types dependency is only taken when `seen.insert(..)` succeeded: in a diamond (the .d.ts already reached) the JS module is yielded although the walk is types-only", where(c))
+    # is_checkable: every JavaScript flavour defers to the check_js option, typed / json / wasm modules are checkable
+    ic = F.body(IT + "::is_checkable")
+    mms = [n for n in walk(ic["body"]) if n["k"] == "Match" and "MediaType" in (F.ty(n["scrut"]) or "")]
+    if R.ob(tag, "is_checkable decides by media type", len(mms) == 1, "shape changed", ic["file"]):
+        def arm_for(variant):
+            for arm in mms[0]["arms"]:
+                v, c = pat_variants(arm["pat"])
+                if variant in v or (c and not v):
+                    return arm
+            return None
+        for mt in ("JavaScript", "Jsx", "Mjs", "Cjs"):
+            arm = arm_for("deno_media_type::MediaType::" + mt)
+            ok = arm is not None and any((y.get("fn") or "").endswith("CheckJsOption::resolve") for y in walk(arm["body"]))
+            R.ob(tag, "media type %s is checkable exactly when check_js says so" % mt, ok,
+                 "is_checkable does not defer to `check_js.resolve(..)` for MediaType::%s: with check_js on, a types-only walk / segment skips such a module (and everything only it imports)" % mt, where(arm["body"]) if arm else ic["file"])
+        for mt in ("TypeScript", "Mts", "Cts", "Dts", "Dmts", "Dcts", "Tsx", "Json", "Wasm"):
+            arm = arm_for("deno_media_type::MediaType::" + mt)
+            ok = arm is not None and peel(arm["body"]).get("v") is not False and not any((y.get("fn") or "").endswith("CheckJsOption::resolve") for y in walk(arm["body"]))
+            R.ob(tag, "media type %s is always checkable" % mt, ok, "is_checkable answers `%s` for MediaType::%s" % (expr_text(arm["body"])[:30] if arm else "?", mt), where(arm["body"]) if arm else ic["file"])
     # fast check deps
     fc = [n for n in nx["_nodes"] if callee_matches(n, ["Module::dependencies_prefer_fast_check"])]
     R.floor(tag + " fast-check dependency selection", len(fc), 1)
